@@ -860,13 +860,13 @@ def ref_sfetch(rng, i):
 
 def ref_translate(rng, i):
     """DNA with degenerate residues in every canonical/degenerate pattern over the first and last four positions, stop and
-    start codons next to the ends, runs of N, lengths 3..7 and long ones (sequences shorter than a codon: known finding)"""
+    start codons next to the ends, runs of N, lengths 3..7 and long ones (sequences shorter than a codon are skipped)"""
     DEG = "NRYKMSWBDHV"
     n = rng.choice([1, 1, 2, 3, 5])
     recs = []
     use_W = rng.random() < 0.3
     for k in range(n):
-        L = rng.choice([3, 4, 5, 6, 7, 8, 9, 30, 61, 150, rng.randrange(3, 400), rng.randrange(3, 400)])
+        L = rng.choice([0, 1, 2, 3, 4, 5, 6, 7, 8, 9, 30, 61, 150, rng.randrange(3, 400), rng.randrange(3, 400)])
         if use_W and rng.random() < 0.2:
             L = rng.choice([4091, 4092, 4093, 4094, 4095, 8184, 8186, 9001])       # around the 4092-residue window of -W
         style = rng.random()
@@ -1021,7 +1021,7 @@ def corpus_cases(ctx):
          "ops": [op_file("in.fa", ">prot1 x\na\n>seq2 x\nACg\n>n|m3\nAAACGAG\nGCTACGC\nATTAAAT\nCTAGCAC\nCTACCGT\nGGCTGCC\nGCTADGT\nGAGCATA\nACTCT\n"),
                  op_run("esl-shuffle", ["--seed", "2", "-m", "-L", "5", "--informat", "fasta", "in.fa"])]},
         # esl-translate: a sequence shorter than a codon is skipped without esl_sq_Reuse(): it is glued in front of the next one
-        {"name": "corpus-translate-short", "ref": True, "sticky": 1, "known_key": "C13:esl-translate:short-seq-not-reused",
+        {"name": "corpus-translate-short", "ref": True, "sticky": 1,
          "ops": [op_file("in.fa", ">a\nCC\n>b a desc\nATTG\n"), op_run("esl-translate", ["-l", "0", "-m", "--crick", "--informat", "fasta", "in.fa"])]},
     ]
     return out
